@@ -148,6 +148,9 @@ theorem sm_init_sound (m : Mem) :
     | (none, m') => m'.live = m.live ∧ m'.refusals > m.refusals :=
   SeqMap.init_spec m
 
+example : ((SeqMap.init Mem.grantAll).1.map (fun s => (s.len, s.offset))) = some (0, 0) := by decide
+example : (SeqMap.init Mem.refuseAll).1.isNone = true := by decide
+
 /-- **Every finite sequence of add/get/delete/getmin refines the ideal map** (for every oracle; non-NULL
 pointers; fewer than 2^63 numbers): `add` returns the next number (`smAdmit` demands `num = next`, so
 numbers are issued consecutively from 0) or fails with -1 changing nothing; `get` returns the pointer
@@ -164,6 +167,12 @@ theorem sm_run_refines (ops : List SmOp) (s : SeqMap.SM) (m : Mem) (h : SeqMap.M
 
 example : ∀ op ∈ [SmOp.add 5, .add 6, .delete 0, .getmin, .get 0, .get 1, .get 7], smContract op := by
   simp [smContract]
+
+/-- a concrete run from `seqptrmap_init`: numbers 0, 1, 2 issued; 0 deleted; minimum 1; 0 and 7 unknown -/
+example : (match (SeqMap.init Mem.grantAll) with
+    | (some s, m) => (SeqMap.run s [.add 5, .add 6, .add 7, .delete 0, .getmin, .get 0, .get 1, .get 7] m).1.map
+        (fun x => (x.2.num, x.2.ptr))
+    | (none, _) => []) = [(0, 0), (1, 0), (2, 0), (0, 0), (1, 0), (0, 0), (0, 6), (0, 0)] := by decide +kernel
 
 /-- one step of the map -/
 theorem sm_step_refines (s : SeqMap.SM) (op : SmOp) (m : Mem) (h : SeqMap.MInv s) (hc : smContract op)
@@ -186,11 +195,18 @@ theorem mp_run_refines (sz : Nat) (ops : List MpOp) (p : MPool.MP) (m : Mem) (u 
   MPool.run_ok sz ops p m u base h hc
 
 example (m : Mem) : MPool.R (MPool.init 4) m [] m.live := MPool.init_R 4 m
+/-- cache size 2: the third `free` doubles the stack; the next `malloc` is served from the cache -/
+example : (MPool.run 40 (MPool.init 2) [.malloc, .malloc, .malloc, .free 0, .free 1, .free 2, .malloc] Mem.grantAll).1.map
+    (·.2.obj) = [some 0, some 1, some 2, none, none, none, some 2] := by decide
+example : (MPool.run 40 (MPool.init 2) [.malloc, .malloc, .malloc, .free 0, .free 1, .free 2, .malloc] Mem.grantAll).2.1.allocsize = 4 := by
+  decide
 
 /-- **At exit the pool returns every cached object** (and its stack, if it allocated one): afterwards the
 cache is empty and exactly the objects still in use remain allocated. -/
 theorem mp_exit_frees_cached (p : MPool.MP) (m : Mem) (u : List Nat) (base : Int) (h : MPool.R p m u base) :
     (MPool.atexit p m).1.stack = [] ∧ (MPool.atexit p m).1.stacklen = 0 ∧ (MPool.atexit p m).2.live = base + u.length :=
   MPool.atexit_spec p m u base h
+
+example : (MPool.atexit ⟨[3, 1], 2, 4, 5, 2, true, true⟩ { Mem.grantAll with live := 3 }).2.live = 0 := by decide
 
 end Percival.C12
